@@ -759,7 +759,34 @@ _GLOBAL_FUNCS = ('len', 'isinstance', 'set', 'list', 'dict', 'tuple', 'sorted', 
                  'unchanged', 'index_of', 'str_index', 'subseq', 'substr', 'str_len', 'setv',
                  'union_of', 'same_elems', 'is_fresh', 'seq_map_eq', 'let', 'emp', 'char_at',
                  'is_digit_str', 'str_to_int', 'concat_seq', 'mkseq', 'is_list', 'store', 'dict_has', 'dict_get',
-                 'dict_keys', 'implies_all', 'remove_positions', 'trig', 'same', 'dict_index', 'allocated', 'ncalls', 'call_arg', 'call_result')
+                 'dict_keys', 'implies_all', 'remove_positions', 'trig', 'same', 'dict_index', 'allocated', 'ncalls', 'call_arg', 'call_result', 'in_timeout_scope', 'nraised')
+
+
+def global_object_val(st, nm):
+    """Module-level constant object: a fixed reference that exists before the function starts; its
+    declared field values hold in the current heap (nobody may write them: the frame checks reject it)."""
+    cls, fields = R.GLOBAL_OBJECTS[nm]
+    g = z3.Int('g!' + nm)
+    v = Val(T.TRef(cls), g)
+    if nm not in st.ghost.setdefault('$globals', set()):
+        st.ghost['$globals'].add(nm)
+        st.assume(z3.And(g > 0, g < st.fn_alloc0, TYPEOF(g) == R.CLASSES[cls].tag))
+        for other in st.ghost['$globals']:
+            if other != nm:
+                st.assume(g != z3.Int('g!' + other))
+    E = _ex()
+    for f, pyv in fields.items():
+        cur = st.read_field(g, cls, f)
+        if pyv is None:
+            want = E.NONE_VAL()
+        elif isinstance(pyv, bool):
+            want = E.mk_bool(z3.BoolVal(pyv))
+        elif isinstance(pyv, int):
+            want = E.mk_int(pyv)
+        else:
+            want = E.mk_str(pyv)
+        st.assume(values_equal(st, cur, want))
+    return v
 
 
 def lookup_global(st, nm):
@@ -769,6 +796,8 @@ def lookup_global(st, nm):
         return Val(T.FN, FnV('builtin', nm))
     if nm == '__name__':
         return Val(T.STR, z3.StringVal('module'))
+    if nm in R.GLOBAL_OBJECTS:
+        return global_object_val(st, nm)
     if nm in R.CLASSES:
         return Val(T.TYPEOBJ, FnV('class', nm))
     from . import calls
